@@ -43,6 +43,10 @@ def run(facts, rep, tier, ctx):
     rep.floor("copy_dir counter obligations", n, 4)
     n = pr.create_dir_all(rep, "R11.5")
     rep.floor("create_dir_all obligations", n, 6)
+    # copy_dir / move_dir transfer what walk_dir yields: the walk must reach every descendant (shared with C05 R05.3)
+    from . import c05 as _c05
+    from .c10 import _Prefixed as _Pf
+    _c05.walk_rules(facts, _c05._P5(rep, "R11.6"), ws, D)
     # escapes: only NotSupported falls through (re-use C20's classification on the path layer)
     from ..report import Report
     scratch = Report("x")
@@ -70,6 +74,7 @@ def run(facts, rep, tier, ctx):
         pra = PathRules(facts, wa, D)
         k = pra.table_p(A, "R11.1") + pra.fast_paths(A, "R11.2") + pra.generic_routes(A, "R11.3") + \
             pra.copy_dir_count(A, "R11.4") + pra.create_dir_all(A, "R11.5")
+        _c05.walk_rules(facts, _c05._P5(A, "R11.6"), wa, D)
         scratch = Report("xa")
         c20.run_world(facts, scratch, wa, {"results": 0, "err_edges": 0, "kind_arms": 0})
         for o in scratch.obligations:
